@@ -50,6 +50,15 @@ in a dry run too, with an empty job list: clauses (p2)/(p3) still hold (no scanc
 all), the run ends CANCELLED (3) when the request was consumed, FINISHED (0) otherwise; the REAL twin with the request
 after pass 1 (jobs just submitted) must record scancel / bkill / flux.job.cancel (the monitor is live).
 
+Stripped environment: every generated (non-cancel) case is also run through the command line, dry and real, with an
+environment that holds NOTHING but PATH=<fakes>:/usr/bin:/bin, LANG=LC_ALL=C, a fresh TMPDIR, the PYTHON* / harness
+variables and -- per case -- HOME unset or pointing to a directory that does not exist, SHELL unset / /bin/false / /bin/sh;
+no LOGNAME / USER / LNAME / USERNAME; and (most cases) a uid without a passwd entry: a real os.setuid in the child when the
+harness runs as root and the interpreter stays importable for that uid, else pwd.getpwuid made to raise KeyError for the
+process (coverage: `stripped_env:uid_mode`).  The dry run must satisfy every clause below AND leave the same tree, modes and
+script bytes as the same dry run under the normal environment (the shebang does not follow $SHELL, ...).  The real twin's
+exit code is recorded, not judged.
+
 Clauses.  For each DRY run (VIOLATION otherwise):
   (p1) exit code 0 / status FINISHED, every status.csv row DRYRUN;
   (p2) <run>.cmds.log is empty and <run>.doors.log holds no process entry;
@@ -402,6 +411,57 @@ def spec_text(case, d):
 # running
 # ----------------------------------------------------------------------------
 RUNS = ("dry-cli", "real-cli", "dry-api", "real-api")
+ENV_RUNS = ("dry-cli-env", "real-cli-env")     # the command-line runs once more, under the case's stripped environment
+USER_VARS = ("LOGNAME", "USER", "LNAME", "USERNAME")
+_SETUID_OK = {}
+
+
+def real_setuid_possible(uid):
+    """can a child really drop to `uid` (no passwd entry) and still import the standard library?  Needs root, and an
+    interpreter that is not installed below a directory only root may enter (here: /root/.pyenv, mode 0700)."""
+    if uid in _SETUID_OK:
+        return _SETUID_OK[uid]
+    ok = False
+    try:
+        import pwd
+        import subprocess
+        if os.geteuid() == 0:
+            try:
+                pwd.getpwuid(uid)
+            except KeyError:
+                from harness import e2e
+                p = subprocess.run([e2e.PY, "-c", "import os; os.setgid(%d); os.setgroups([]); os.setuid(%d); "
+                                    "import logging, json, getpass, tempfile, filelock, yaml; print('ok')" % (uid, uid)],
+                                   env={"PATH": "/usr/bin:/bin", "PYTHONDONTWRITEBYTECODE": "1"}, stdout=subprocess.PIPE,
+                                   stderr=subprocess.DEVNULL, text=True, timeout=60)
+                ok = p.returncode == 0 and "ok" in (p.stdout or "")
+    except Exception:
+        ok = False
+    _SETUID_OK[uid] = ok
+    return ok
+
+
+def stripped_env(case, d, which, env):
+    """the COMPLETE environment of a stripped run: nothing inherited but what is listed here"""
+    v = case["envv"]
+    tmp = os.path.join(d, "tmp-" + which)
+    os.makedirs(tmp, exist_ok=True)
+    full = {"PATH": os.path.join(d, "bin") + ":/usr/bin:/bin", "LANG": "C", "LC_ALL": "C", "TMPDIR": tmp,
+            "PYTHONDONTWRITEBYTECODE": "1", "PYTHONHASHSEED": os.environ.get("PYTHONHASHSEED", "0")}
+    full.update({k: x for k, x in env.items() if k.startswith(("C17P_", "E2E_", "PYTHONPATH", "FLUX_URI"))})
+    if v.get("home") == "missing":
+        full["HOME"] = os.path.join(d, "no-such-home")
+    if v.get("shell"):
+        full["SHELL"] = v["shell"]
+    if v.get("nouid"):
+        uid = 61000 + (sum(ord(c) for c in os.path.basename(d)) % 900)
+        if real_setuid_possible(uid):
+            full["C17P_SETUID"] = str(uid)
+            import subprocess
+            subprocess.run(["chown", "-R", "%d:%d" % (uid, uid), d], check=False)
+        else:
+            full["C17P_NOPASSWD"] = "1"        # the uid's passwd lookup fails, as it does for a uid without an entry
+    return full
 
 
 def make_fakes(d):
@@ -429,7 +489,7 @@ def run_quad(job):
         json.dump(case, f)
     bind, site, _ = make_fakes(d)
     res = {}
-    for which in RUNS:
+    for which in RUNS + (ENV_RUNS if case.get("envv") else ()):
         if which.startswith("real") and not case.get("real", True):
             continue
         dry, api = which.startswith("dry"), which.endswith("api")
@@ -472,9 +532,10 @@ def run_quad(job):
             argv = ["run"] + (["--dry"] if dry else []) + ["-fg", "-y", "-s", e2e.POLL_SLEEP, "--attempts", case["attempts"],
                                                           "--rlimit", case["rlimit"], "--throttle", case["throttle"], "-o", out]
             argv += (["--hashws"] if case["hashws"] else []) + (["--usetmp"] if case["usetmp"] else []) + ["spec.yaml"]
+            full = stripped_env(case, d, which, env) if which in ENV_RUNS else e2e.base_env(env)
             try:
                 p = subprocess.run([e2e.PY, "-m", "harness.props.c17_procs", "cli"] + [str(a) for a in argv], cwd=d,
-                                   env=e2e.base_env(env), input="", text=True, errors="replace", stdout=subprocess.PIPE,
+                                   env=full, input="", text=True, errors="replace", stdout=subprocess.PIPE,
                                    stderr=subprocess.STDOUT, timeout=150)
                 rc, tail = p.returncode, (p.stdout or "")[-3000:]
             except subprocess.TimeoutExpired:
@@ -518,6 +579,20 @@ def sub_cli(argv):
     harness/e2e_launcher.py; the recorder was injected by the sitecustomize module first on PYTHONPATH"""
     import harness.e2e_launcher as L              # noqa: F401
     install_cancel()
+    if os.environ.get("C17P_SETUID"):
+        # really become a uid without a passwd entry (the harness, running as root, chown-ed the scratch directory)
+        u = int(os.environ["C17P_SETUID"])
+        os.setgid(u)
+        os.setgroups([])
+        os.setuid(u)
+    elif os.environ.get("C17P_NOPASSWD"):
+        # the interpreter lives where only root may go, so the uid cannot really be dropped: the passwd lookup of the
+        # process's uid fails instead, the way it does for a uid without an entry
+        import pwd
+
+        def _unknown(uid):
+            raise KeyError("getpwuid(): uid not found: %s" % (uid,))
+        pwd.getpwuid = _unknown
     import maestrowf.maestro as m
     if os.environ.get("C17P_CANCEL_AT", "").startswith("-"):
         # a cancel request that is there BEFORE the first pass (`maestro run` wipes an existing output directory, so the
@@ -621,8 +696,14 @@ def flux_read_allowed(e):
 
 
 def describe(which, case):
-    how = ("`maestro run --dry -fg -y`" if which == "dry-cli" else "`maestro run -fg -y`" if which == "real-cli" else
+    how = ("`maestro run --dry -fg -y`" if which.startswith("dry-cli") else "`maestro run -fg -y`" if which.startswith("real-cli") else
            "Study.configure_study(dry_run=%s) + Conductor.monitor_study()" % which.startswith("dry"))
+    if which in ENV_RUNS:
+        v = case.get("envv") or {}
+        how += (" under a stripped environment [no LOGNAME/USER/LNAME/USERNAME, HOME %s, SHELL %s, LANG=LC_ALL=C, fresh TMPDIR, "
+                "PATH=<fakes>:/usr/bin:/bin%s]" % ("-> a directory that does not exist" if v.get("home") else "unset",
+                                                   v.get("shell") or "unset",
+                                                   ", uid without a passwd entry" if v.get("nouid") else ""))
     cat = case.get("cancel_at")
     canc = "" if cat is None else (", cancel request (.cancel.lock, as `maestro cancel` writes it) %s"
                                    % ("present before the first pass" if cat < 0 else "made after pass %d" % (cat + 1)))
@@ -636,10 +717,14 @@ def judge(case, d, res):
     from harness.props import c17_e2e
     viol, prob = [], []
     info = {"flux_reads": Counter(), "real_cmds": 0, "real_doors": 0, "witness": None, "instances": 0}
-    for which in RUNS:
+    for which in RUNS + ENV_RUNS:
         if which not in res:
             continue
         r = res[which]
+        if which == "real-cli-env":
+            # what a REAL run does without a user name / home / shell is not C17's business: recorded, not judged
+            info["real_env_rc"] = r["rc"]
+            continue
         doors = read_doors(os.path.join(d, which + ".doors.log"))
         cmds = read_lines(os.path.join(d, which + ".cmds.log"))
         notes = [e for e in doors if e["door"].startswith("note:")]
@@ -690,6 +775,19 @@ def judge(case, d, res):
                         viol.append("the dry run (%s) ended with status rows that are not DRYRUN: %r" % (describe(which, case), notdry[:5]))
                 except Exception as e:
                     viol.append("the dry run (%s) ended successfully but left no readable status.csv: %r" % (describe(which, case), e))
+                if which == "dry-cli-env" and res.get("dry-cli", {}).get("rc") == 0:
+                    # the environment of the process is no input of script generation: same tree, modes and bytes
+                    ref = os.path.join(d, "dry-cli")
+                    t = c17_e2e.tree_clause(case, out, ref)
+                    if t:
+                        viol.append("%s: compared with the same dry run under the normal environment: %s"
+                                    % (describe(which, case), t.replace("the real run", "the normal-environment run").replace("real run", "normal-environment run")))
+                    if not case["usetmp"]:
+                        sd, sr = c17_e2e.disk_scripts(out), c17_e2e.disk_scripts(ref)
+                        if sd != sr:
+                            k = next(k for k in sorted(set(sd) | set(sr)) if sd.get(k) != sr.get(k))
+                            viol.append("%s: script file %s differs from the one the same dry run writes under the normal environment: %s"
+                                        % (describe(which, case), k, first_diff(sd.get(k), sr.get(k)).replace("real run", "normal environment")))
                 real = which.replace("dry", "real")
                 notx = sorted(k for k, m in c17_e2e.mode_map(out).items() if k.endswith(".sh") and (m is None or not m & 0o100))
                 if notx and not (real in res and res[real]["rc"] == 0):
@@ -743,7 +841,7 @@ def judge(case, d, res):
 
 def slim(case):
     return {k: case.get(k) for k in ("kind", "adapter", "batch", "steps", "params", "attempts", "throttle", "rlimit", "hashws",
-                                     "usetmp", "shape", "env_flux_uri", "real", "cancel_at")}
+                                     "usetmp", "shape", "env_flux_uri", "real", "cancel_at", "envv")}
 
 
 def run_cases(ck, cases, tag="C17_procs"):
@@ -776,6 +874,15 @@ def run_cases(ck, cases, tag="C17_procs"):
         dist["batch:all_keys"] += int(all(k in case["batch"] for k, _ in BATCH_KEYS[case["adapter"]]))
         dist["shape:" + ("split-level" if case.get("shape") == "split" else "corpus" if case.get("origin") else
                          "cancel" if case.get("cancel_at") is not None else "generated")] += 1
+        if case.get("envv"):
+            v = case["envv"]
+            dist["stripped_env:runs"] += sum(1 for w in res if w in ENV_RUNS)
+            dist["stripped_env:HOME=%s" % ("missing-dir" if v.get("home") else "unset")] += 1
+            dist["stripped_env:SHELL=%s" % (v.get("shell") or "unset")] += 1
+            if v.get("nouid"):
+                dist["stripped_env:uid_without_passwd_entry"] += 1
+            if "real_env_rc" in info:
+                dist["stripped_env:real_twin_rc=%s" % info["real_env_rc"]] += 1
         if case.get("cancel_at") is not None:
             dist["cancel_at:%+d" % case["cancel_at"]] += 1
             dist["cancel_request_consumed_by_dry_runs"] += info.get("cancel_fired", 0)
@@ -791,6 +898,10 @@ def run_cases(ck, cases, tag="C17_procs"):
     e2e.sweep()
     out = dict(sorted(dist.items()))
     out["dry_run_processes_and_commands"] = 0 if not ck.concrete else "see violations"
+    out["stripped_env:uid_mode"] = ("real setuid to a uid without a passwd entry" if any(_SETUID_OK.values()) else
+                                    "passwd lookup of the process's uid made to fail (pwd.getpwuid raises KeyError): %s"
+                                    % ("not running as root" if os.geteuid() != 0 else
+                                       "the interpreter is installed where only root may go, a child that drops its uid cannot import the standard library"))
     # NOT a filter: what the unchanged tree's Flux dry run does ask of the broker (clause p3)
     out["flux_dry_run_broker_reads"] = dict(sorted(reads.items()))
     if witness:
@@ -850,6 +961,10 @@ def run_procs(ck):
     fv = flux_versions()
     for r in range(1 if ck.tier != "thorough" else 8):
         cases += [gen_split_case(rng, "slurm"), gen_split_case(rng, "lsf")] + [gen_split_case(rng, "flux", v) for v in fv[:1 + r % 2]]
+    shells = [None, "/bin/false", "/bin/sh"]
+    for i, c in enumerate(cases):
+        if "envv" not in c and not c.get("origin"):
+            c["envv"] = {"home": [None, "missing"][i % 2], "shell": shells[i % 3], "nouid": i < 6 or rng.random() < 0.6}
     cases += gen_cancel_cases(rng, ck.tier)
     ck.cov["e2e_procs"] = run_cases(ck, cases)
     ck.cov["e2e_procs_rule"] = (
